@@ -7,6 +7,7 @@ bad=0
 for s in $seeds; do for p in C05 C06 C07 C18 C19; do
   out=$(VERIF_SEED=$s VERIF_BUDGET_S=${CLEAN_BUDGET:-25} ./check $p quick 2>&1); rc=$?
   echo "seed=$s $p rc=$rc $(echo "$out" | grep '^SUMMARY' | cut -c1-140)"
+  if [ $p = C19 ] && grep -q generated_foreign_document_rejected evidence/C19.json; then bad=1; echo "  the generated foreign document is rejected by its importer: its content is not being compared"; fi
   [ $rc = 0 ] || { bad=1; echo "$out" | grep -A1 '^VIOLATION\|HARNESS' | head -6 | cut -c1-300; }
 done; done
 exit $bad
